@@ -18,15 +18,34 @@ structure Keeps (U : Nat → Prop) (s s' : State) : Prop where
   keep : ∀ (y : Nat) yb, U y → s.get y = some yb → ∃ yb', s'.get y = some yb' ∧ yb'.parent = yb.parent ∧
     yb'.pending = yb.pending ∧ (∀ z ∈ yb.children, U z → z ∈ yb'.children) ∧
     (yb.pending = true → NoRefKid s yb → List.Sublist yb'.children yb.children)
+  /-- TRef / `.memlimit` chunks never change their parent -/
+  refPar : ∀ (z : Nat) zb' zb, s'.get z = some zb' → s.get z = some zb → zb.kind ≠ .plain → zb'.parent = zb.parent
+  /-- child lists keep their order: some children go, new ones are appended -/
+  order : ∀ (y : Nat) yb yb', U y → s.get y = some yb → s'.get y = some yb' →
+    ∃ (keepf : Id → Bool) (app : List Id), yb'.children = yb.children.filter keepf ++ app ∧
+      ∀ z ∈ yb.children, U z → keepf z = true
+  /-- the destructor slot of a kept object is not touched and it gains no reference -/
+  fields : ∀ (y : Nat) yb yb', U y → s.get y = some yb → s'.get y = some yb' →
+    yb'.dtor = yb.dtor ∧ (yb.refs = [] → yb'.refs = [])
 
-theorem Keeps.refl (U : Nat → Prop) (s : State) : Keeps U s s :=
-  ⟨fun z zb h => ⟨zb, h, rfl⟩, fun y yb _ h => ⟨yb, h, rfl, rfl, fun z hz _ => hz, fun _ _ => List.Sublist.refl _⟩⟩
+theorem Keeps.refl (U : Nat → Prop) (s : State) : Keeps U s s := by
+  refine ⟨fun z zb h => ⟨zb, h, rfl⟩,
+    fun y yb _ h => ⟨yb, h, rfl, rfl, fun z hz _ => hz, fun _ _ => List.Sublist.refl _⟩, ?_, ?_, ?_⟩
+  · intro z zb' zb h1 h2 _; rw [h1] at h2; cases h2; rfl
+  · intro y yb yb' _ h1 h2
+    rw [h1] at h2; cases h2
+    exact ⟨fun _ => true, [], by simp, fun _ _ _ => rfl⟩
+  · intro y yb yb' _ h1 h2
+    rw [h1] at h2; cases h2; exact ⟨rfl, id⟩
 
 theorem Keeps.mono {U U' : Nat → Prop} {s s' : State} (h : Keeps U s s') (hu : ∀ y, U' y → U y) : Keeps U' s s' := by
-  refine ⟨h.kind, ?_⟩
-  intro y yb hy hg
-  obtain ⟨yb', h1, h2, h3, h4, h5⟩ := h.keep y yb (hu y hy) hg
-  exact ⟨yb', h1, h2, h3, fun z hz hzu => h4 z hz (hu z hzu), h5⟩
+  refine ⟨h.kind, ?_, h.refPar, ?_, fun y yb yb' hy => h.fields y yb yb' (hu y hy)⟩
+  · intro y yb hy hg
+    obtain ⟨yb', h1, h2, h3, h4, h5⟩ := h.keep y yb (hu y hy) hg
+    exact ⟨yb', h1, h2, h3, fun z hz hzu => h4 z hz (hu z hzu), h5⟩
+  · intro y yb yb' hy h1 h2
+    obtain ⟨kf, app, e, hk⟩ := h.order y yb yb' (hu y hy) h1 h2
+    exact ⟨kf, app, e, fun z hz hzu => hk z hz (hu z hzu)⟩
 
 theorem isRefAt_back {U : Nat → Prop} {s s' : State} (h : Keeps U s s') {z : Nat} (hz : isRefAt s' z) : isRefAt s z := by
   obtain ⟨zb', t, h1, h2⟩ := hz
@@ -34,7 +53,7 @@ theorem isRefAt_back {U : Nat → Prop} {s s' : State} (h : Keeps U s s') {z : N
   exact ⟨zb, t, h3, by rw [h4]; exact h2⟩
 
 theorem Keeps.trans {U : Nat → Prop} {a b c : State} (h1 : Keeps U a b) (h2 : Keeps U b c) : Keeps U a c := by
-  refine ⟨?_, ?_⟩
+  refine ⟨?_, ?_, ?_, ?_, ?_⟩
   · intro z zc hz
     obtain ⟨zb, h3, h4⟩ := h2.kind z zc hz
     obtain ⟨za, h5, h6⟩ := h1.kind z zb h3
@@ -49,30 +68,85 @@ theorem Keeps.trans {U : Nat → Prop} {a b c : State} (h1 : Keeps U a b) (h2 : 
       intro z hz hr
       exact hnr z (s1.subset hz) (isRefAt_back h1 hr)
     exact (k5 (by rw [g3]; exact hp) hnr').trans s1
+  · intro z zc za hz hza hk
+    obtain ⟨zb, h3, h4⟩ := h2.kind z zc hz
+    obtain ⟨za', h5, h6⟩ := h1.kind z zb h3
+    rw [hza] at h5; cases h5
+    rw [h2.refPar z zc zb hz h3 (by rw [← h6]; exact hk), h1.refPar z zb za h3 hza hk]
+  · intro y ya yc hy hga hgc
+    obtain ⟨yb, g1, -, -, g4, -⟩ := h1.keep y ya hy hga
+    obtain ⟨k1, app1, e1, hk1⟩ := h1.order y ya yb hy hga g1
+    obtain ⟨k2, app2, e2, hk2⟩ := h2.order y yb yc hy g1 hgc
+    refine ⟨fun z => k1 z && k2 z, app1.filter k2 ++ app2, ?_, ?_⟩
+    · rw [e2, e1, List.filter_append, List.filter_filter, List.append_assoc]
+      congr 1
+      apply List.filter_congr
+      intro z _; exact Bool.and_comm _ _
+    · intro z hz hzu
+      simp only [Bool.and_eq_true]
+      exact ⟨hk1 z hz hzu, hk2 z (g4 z hz hzu) hzu⟩
+  · intro y ya yc hy hga hgc
+    obtain ⟨yb, g1, -⟩ := h1.keep y ya hy hga
+    obtain ⟨d1, r1⟩ := h1.fields y ya yb hy hga g1
+    obtain ⟨d2, r2⟩ := h2.fields y yb yc hy g1 hgc
+    exact ⟨d2.trans d1, fun h => r2 (r1 h)⟩
 
 theorem Keeps.of_shapeEq (U : Nat → Prop) {s s' : State} (h : ShapeEq s s') : Keeps U s s' := by
-  refine ⟨?_, ?_⟩
+  refine ⟨?_, ?_, ?_, ?_, ?_⟩
   · intro z zb' hz
     obtain ⟨zb, h1, -, -, -, e4, -, -⟩ := h.symm.get hz
     exact ⟨zb, h1, e4⟩
   · intro y yb _ hg
     obtain ⟨yb', h1, e1, e2, -, -, e5, -⟩ := h.get hg
     exact ⟨yb', h1, e1, e5, fun z hz _ => by rw [e2]; exact hz, fun _ _ => e2 ▸ List.Sublist.refl _⟩
+  · intro z zb' zb h1 h2 _
+    obtain ⟨zb'', h3, e1, -⟩ := h.get h2
+    rw [h1] at h3; cases h3; exact e1
+  · intro y yb yb' _ h1 h2
+    obtain ⟨yb'', h3, -, e2, -⟩ := h.get h1
+    rw [h2] at h3; cases h3
+    exact ⟨fun _ => true, [], by simp [e2], fun _ _ _ => rfl⟩
+  · intro y yb yb' _ h1 h2
+    obtain ⟨yb'', h3, -, -, e3, -, -, e6⟩ := h.get h1
+    rw [h2] at h3; cases h3
+    exact ⟨e6, fun h => by rw [e3]; exact h⟩
 
 /-- a state whose objects are those of `s` with child lists shortened by erasing `x` (and any other
 field but parent, pending, kind changed), `x` possibly gone -/
 theorem keeps_of_erase {U : Nat → Prop} {s s' : State} (x : Nat) (hx : ¬ U x)
     (h : ∀ (j : Nat), j ≠ x → ∀ ob, s.get j = some ob → ∃ ob', s'.get j = some ob' ∧ ob'.parent = ob.parent ∧
-      ob'.pending = ob.pending ∧ ob'.kind = ob.kind ∧ ob'.children = ob.children.erase x)
-    (hb : ∀ (j : Nat) ob', s'.get j = some ob' → ∃ ob, s.get j = some ob ∧ ob.kind = ob'.kind) : Keeps U s s' := by
-  refine ⟨hb, ?_⟩
-  intro y yb hy hg
-  have hyx : y ≠ x := by intro e; subst e; exact hx hy
-  obtain ⟨yb', h1, h2, h3, -, h5⟩ := h y hyx yb hg
-  refine ⟨yb', h1, h2, h3, ?_, fun _ _ => by rw [h5]; exact List.erase_sublist⟩
-  intro z hz hzu
-  rw [h5]
-  exact (List.mem_erase_of_ne (by intro e; subst e; exact hx hzu)).2 hz
+      ob'.pending = ob.pending ∧ ob'.kind = ob.kind ∧ ob'.children = ob.children.erase x ∧
+      ob'.dtor = ob.dtor ∧ (ob.refs = [] → ob'.refs = []))
+    (hb : ∀ (j : Nat) ob', s'.get j = some ob' → ∃ ob, s.get j = some ob ∧ ob.kind = ob'.kind)
+    (hxp : ∀ xb' xb, s'.get x = some xb' → s.get x = some xb → xb'.parent = xb.parent)
+    (hnd : ∀ (j : Nat) ob, s.get j = some ob → ob.children.Nodup) : Keeps U s s' := by
+  refine ⟨hb, ?_, ?_, ?_, ?_⟩
+  rotate_right
+  · intro y yb yb' hy h1 h2
+    have hyx : y ≠ x := by intro e; subst e; exact hx hy
+    obtain ⟨ob', h3, -, -, -, -, h6, h7⟩ := h y hyx yb h1
+    rw [h2] at h3; cases h3; exact ⟨h6, h7⟩
+  · intro y yb hy hg
+    have hyx : y ≠ x := by intro e; subst e; exact hx hy
+    obtain ⟨yb', h1, h2, h3, -, h5, -⟩ := h y hyx yb hg
+    refine ⟨yb', h1, h2, h3, ?_, fun _ _ => by rw [h5]; exact List.erase_sublist⟩
+    intro z hz hzu
+    rw [h5]
+    exact (List.mem_erase_of_ne (by intro e; subst e; exact hx hzu)).2 hz
+  · intro z zb' zb h1 h2 _
+    by_cases e : z = x
+    · subst e; exact hxp zb' zb h1 h2
+    · obtain ⟨ob', h3, h4, -⟩ := h z e zb h2
+      rw [h1] at h3; cases h3; exact h4
+  · intro y yb yb' hy h1 h2
+    have hyx : y ≠ x := by intro e; subst e; exact hx hy
+    obtain ⟨ob', h3, -, -, -, h5, -⟩ := h y hyx yb h1
+    rw [h2] at h3; cases h3
+    refine ⟨fun z => z != x, [], ?_, ?_⟩
+    · rw [h5, List.append_nil, (hnd y yb h1).erase_eq_filter]
+    · intro z _ hzu
+      simp only [bne_iff_ne, ne_eq]
+      intro e; subst e; exact hx hzu
 
 
 /-- release of a TRef / `.memlimit` chunk -/
@@ -81,7 +155,8 @@ theorem keeps_freeLeafS {U : Nat → Prop} {s : State} {r : Nat} {rb : Obj} (w :
   have hg := freeLeafS_get w hr hk
   apply keeps_of_erase r hu
   · intro j hj ob hob
-    refine ⟨{ ob with children := ob.children.erase r, refs := ob.refs.erase r }, ?_, rfl, rfl, rfl, rfl⟩
+    refine ⟨{ ob with children := ob.children.erase r, refs := ob.refs.erase r }, ?_, rfl, rfl, rfl, rfl, rfl,
+      fun h => by show ob.refs.erase r = []; rw [h]; rfl⟩
     rw [hg]; unfold eraseAll; simp [hj, hob]
   · intro j ob' hj
     rw [hg] at hj; unfold eraseAll at hj
@@ -90,15 +165,28 @@ theorem keeps_freeLeafS {U : Nat → Prop} {s : State} {r : Nat} {rb : Obj} (w :
     · simp only [e, if_false] at hj
       obtain ⟨o0, h0, rfl⟩ := Option.map_eq_some_iff.1 hj
       exact ⟨o0, h0, rfl⟩
+  · intro xb' xb h1 _
+    rw [hg] at h1; unfold eraseAll at h1; simp at h1
+  · exact fun j ob hj => w.childNodup j ob hj
 
 theorem keeps_remove {U : Nat → Prop} (s : State) (x : Nat) (hu : ¬ U x) : Keeps U s (s.remove x) := by
-  refine ⟨?_, ?_⟩
+  refine ⟨?_, ?_, ?_, ?_, ?_⟩
   · intro z zb' hz
     rw [get_remove_some] at hz
     exact ⟨zb', hz.2, rfl⟩
   · intro y yb hy hg
     have hyx : x ≠ y := by intro e; subst e; exact hu hy
     exact ⟨yb, by simp [hyx, hg], rfl, rfl, fun z hz _ => hz, fun _ _ => List.Sublist.refl _⟩
+  · intro z zb' zb h1 h2 _
+    rw [get_remove_some] at h1
+    rw [h1.2] at h2; cases h2; rfl
+  · intro y yb yb' _ h1 h2
+    rw [get_remove_some] at h2
+    rw [h2.2] at h1; cases h1
+    exact ⟨fun _ => true, [], by simp, fun _ _ _ => rfl⟩
+  · intro y yb yb' _ h1 h2
+    rw [get_remove_some] at h2
+    rw [h2.2] at h1; cases h1; exact ⟨rfl, id⟩
 
 /-- FLAG_PENDING + list_del of a plain object -/
 theorem keeps_beginFree {U : Nat → Prop} {s : State} {x : Nat} {xb : Obj} (w : WFp s) (hx : s.get x = some xb)
@@ -113,9 +201,9 @@ theorem keeps_beginFree {U : Nat → Prop} {s : State} {x : Nat} {xb : Obj} (w :
     rw [hg]; simp only [hj, if_false]
     by_cases hp : xb.parent = some j
     · simp only [hp, if_true, hob, Option.map_some]
-      exact ⟨_, rfl, rfl, rfl, rfl, rfl⟩
+      exact ⟨_, rfl, rfl, rfl, rfl, rfl, rfl, id⟩
     · simp only [hp, if_false]
-      refine ⟨ob, hob, rfl, rfl, rfl, ?_⟩
+      refine ⟨ob, hob, rfl, rfl, rfl, ?_, rfl, id⟩
       exact (List.erase_of_not_mem (fun hm => hp (hmem j ob hob hm))).symm
   · intro j ob' hj
     rw [hg] at hj
@@ -125,10 +213,39 @@ theorem keeps_beginFree {U : Nat → Prop} {s : State} {x : Nat} {xb : Obj} (w :
       split at hj
       · obtain ⟨o0, h0, rfl⟩ := Option.map_eq_some_iff.1 hj; exact ⟨o0, h0, rfl⟩
       · exact ⟨ob', hj, rfl⟩
+  · intro xb' xb0 h1 h2
+    rw [hx] at h2; cases h2
+    rw [hg] at h1; simp only [if_true, Option.some.injEq] at h1; subst h1; rfl
+  · exact fun j ob hj => w.childNodup j ob hj
+
+theorem order_comp {U : Nat → Prop} {ca cb cc app1 app2 : List Id} {k1 k2 : Id → Bool}
+    (e1 : cb = ca.filter k1 ++ app1) (hk1 : ∀ z ∈ ca, U z → k1 z = true)
+    (e2 : cc = cb.filter k2 ++ app2) (hk2 : ∀ z ∈ cb, U z → k2 z = true) :
+    ∃ (k : Id → Bool) (app : List Id), cc = ca.filter k ++ app ∧ ∀ z ∈ ca, U z → k z = true := by
+  refine ⟨fun z => k1 z && k2 z, app1.filter k2 ++ app2, ?_, ?_⟩
+  · rw [e2, e1, List.filter_append, List.filter_filter, List.append_assoc]
+    congr 1
+    apply List.filter_congr
+    intro z _; exact Bool.and_comm _ _
+  · intro z hz hzu
+    simp only [Bool.and_eq_true]
+    refine ⟨hk1 z hz hzu, hk2 z ?_ hzu⟩
+    rw [e1]; exact List.mem_append_left _ (List.mem_filter.2 ⟨hz, hk1 z hz hzu⟩)
+
+/-- the child list after `x` was taken out and possibly appended again -/
+theorem order_move {U : Nat → Prop} (cs : List Id) (x : Id) (b : Bool) (hnd : cs.Nodup) (hux : ¬ U x) :
+    ∃ (k : Id → Bool) (app : List Id), (if b then cs.erase x ++ [x] else cs.erase x) = cs.filter k ++ app ∧
+      ∀ z ∈ cs, U z → k z = true := by
+  refine ⟨fun z => z != x, if b then [x] else [], ?_, ?_⟩
+  · rw [hnd.erase_eq_filter]; cases b <;> simp
+  · intro z _ hzu
+    simp only [bne_iff_ne, ne_eq]
+    intro e; subst e; exact hux hzu
 
 /-- a plain object is moved under another parent; the new parent, if it is being freed, has a TRef
 child (so nothing is promised about its child list) -/
 theorem keeps_moveS {U : Nat → Prop} {s : State} {c : Nat} {cb : Obj} (w : WFp s) (hc : s.get c = some cb)
+    (hck : cb.kind = .plain)
     (tnew : Option Id) (hself : tnew ≠ some c) (hself' : cb.parent ≠ some c) (hu : ¬ U c)
     (hq : ∀ q qb, tnew = some q → s.get q = some qb → qb.pending = true → ¬ NoRefKid s qb) :
     Keeps U s (moveS s c tnew false) := by
@@ -137,7 +254,24 @@ theorem keeps_moveS {U : Nat → Prop} {s : State} {c : Nat} {cb : Obj} (w : WFp
     intro j ob hj hm
     obtain ⟨co, hco, hcp, -⟩ := w.childBack j ob c hj hm
     rw [hc] at hco; cases hco; exact hcp
-  refine ⟨?_, ?_⟩
+  have hform : ∀ (y : Nat) yb, y ≠ c → s.get y = some yb → ∃ yb', (moveS s c tnew false).get y = some yb' ∧
+      yb'.parent = yb.parent ∧ yb'.pending = yb.pending ∧
+      yb'.children = (if tnew = some y then yb.children.erase c ++ [c] else yb.children.erase c) ∧
+      yb'.dtor = yb.dtor ∧ yb'.refs = yb.refs := by
+    intro y yb hyc hgy
+    have herase : (if cb.parent = some y then yb.children.erase c else yb.children) = yb.children.erase c := by
+      split
+      · rfl
+      · rename_i hp; exact (List.erase_of_not_mem (fun hm => hp (hmem y yb hgy hm))).symm
+    refine ⟨{ yb with children := if tnew = some y then yb.children.erase c ++ [c] else yb.children.erase c },
+      ?_, rfl, rfl, rfl, rfl, rfl⟩
+    rw [hg]; simp only [hyc, if_false, hgy, Option.map_some, Bool.false_eq_true, herase]
+  refine ⟨?_, ?_, ?_, ?_, ?_⟩
+  rotate_right
+  · intro y yb yb' hy h1 h2
+    have hyc : y ≠ c := by intro e; subst e; exact hu hy
+    obtain ⟨yb'', h3, -, -, -, h6, h7⟩ := hform y yb hyc h1
+    rw [h2] at h3; cases h3; exact ⟨h6, fun h => by rw [h7]; exact h⟩
   · intro z zb' hz
     rw [hg] at hz
     by_cases e : z = c
@@ -168,6 +302,18 @@ theorem keeps_moveS {U : Nat → Prop} {s : State} {c : Nat} {cb : Obj} (w : WFp
       split
       · rename_i hqy; exact absurd hnr (hq y yb hqy hgy hp)
       · exact List.erase_sublist
+  · intro z zb' zb h1 h2 hk
+    by_cases e : z = c
+    · subst e; rw [hc] at h2; cases h2; exact absurd hck hk
+    · obtain ⟨yb', h3, h4, -⟩ := hform z zb e h2
+      rw [h1] at h3; cases h3; exact h4
+  · intro y yb yb' hy h1 h2
+    have hyc : y ≠ c := by intro e; subst e; exact hu hy
+    obtain ⟨yb'', h3, -, -, h4, -⟩ := hform y yb hyc h1
+    rw [h2] at h3; cases h3
+    rw [h4]
+    have := order_move (U := U) yb.children c (decide (tnew = some y)) (w.childNodup y yb h1) hu
+    simpa using this
 
 
 /-- promotion: the TRef chunk `r` (held by `q`) is released and `x` becomes the last child of `q` -/
@@ -197,7 +343,28 @@ theorem keeps_promote {U : Nat → Prop} {s : State} {x r : Nat} {xb rb : Obj} (
     intro j ob hj hm
     obtain ⟨co, hco, hcp, -⟩ := w1.childBack j ob x hj hm
     rw [hLx] at hco; cases hco; exact hcp
-  refine ⟨?_, ?_⟩
+  have hform : ∀ (y : Nat) yb1, y ≠ x → (freeLeafS s r).get y = some yb1 →
+      ∃ yb', (moveS (freeLeafS s r) x rb.parent false).get y = some yb' ∧ yb'.parent = yb1.parent ∧
+        yb'.pending = yb1.pending ∧
+        yb'.children = (if rb.parent = some y then yb1.children.erase x ++ [x] else yb1.children.erase x) ∧
+        yb'.dtor = yb1.dtor ∧ yb'.refs = yb1.refs := by
+    intro y yb1 hyx g1
+    have herase : (if xb1.parent = some y then yb1.children.erase x else yb1.children) = yb1.children.erase x := by
+      split
+      · rfl
+      · rename_i hp; exact (List.erase_of_not_mem (fun hm => hp (hmem y yb1 g1 hm))).symm
+    refine ⟨{ yb1 with children := if rb.parent = some y then yb1.children.erase x ++ [x] else yb1.children.erase x },
+      ?_, rfl, rfl, rfl, rfl, rfl⟩
+    rw [hg]; simp only [hyx, if_false, g1, Option.map_some, Bool.false_eq_true, herase]
+  refine ⟨?_, ?_, ?_, ?_, ?_⟩
+  rotate_right
+  · intro y yb yb' hy h1 h2
+    have hyx : y ≠ x := by intro e; subst e; exact hux hy
+    obtain ⟨yb1, g1, -⟩ := k1.keep y yb hy h1
+    obtain ⟨d1, r1⟩ := k1.fields y yb yb1 hy h1 g1
+    obtain ⟨yb'', h3, -, -, -, h6, h7⟩ := hform y yb1 hyx g1
+    rw [h2] at h3; cases h3
+    exact ⟨h6.trans d1, fun h => by rw [h7]; exact r1 h⟩
   · intro z zb' hz
     rw [hg] at hz
     by_cases e : z = x
@@ -211,17 +378,7 @@ theorem keeps_promote {U : Nat → Prop} {s : State} {x r : Nat} {xb rb : Obj} (
   · intro y yb hy hgy
     have hyx : y ≠ x := by intro e; subst e; exact hux hy
     obtain ⟨yb1, g1, g2, g3, g4, g5⟩ := k1.keep y yb hy hgy
-    have herase : (if xb1.parent = some y then yb1.children.erase x else yb1.children) = yb1.children.erase x := by
-      split
-      · rfl
-      · rename_i hp; exact (List.erase_of_not_mem (fun hm => hp (hmem y yb1 g1 hm))).symm
-    have hget : ∃ yb', (moveS (freeLeafS s r) x rb.parent false).get y = some yb' ∧ yb'.parent = yb1.parent ∧
-        yb'.pending = yb1.pending ∧
-        yb'.children = (if rb.parent = some y then yb1.children.erase x ++ [x] else yb1.children.erase x) := by
-      refine ⟨{ yb1 with children := if rb.parent = some y then yb1.children.erase x ++ [x] else yb1.children.erase x },
-        ?_, rfl, rfl, rfl⟩
-      rw [hg]; simp only [hyx, if_false, g1, Option.map_some, Bool.false_eq_true, herase]
-    obtain ⟨yb', h1, h2, h3, h4⟩ := hget
+    obtain ⟨yb', h1, h2, h3, h4, -⟩ := hform y yb1 hyx g1
     refine ⟨yb', h1, h2.trans g2, h3.trans g3, ?_, ?_⟩
     · intro z hz hzu
       have hzx : z ≠ x := by intro e; subst e; exact hux hzu
@@ -235,12 +392,39 @@ theorem keeps_promote {U : Nat → Prop} {s : State} {x r : Nat} {xb rb : Obj} (
       · rename_i hqy
         exact absurd ⟨rb, x, hr, hrk⟩ (hnr r (hqr y yb hqy hgy))
       · exact List.erase_sublist.trans (g5 hp hnr)
+  · intro z zb' zb h1 h2 hk
+    have hzx : z ≠ x := by intro e; subst e; rw [hx] at h2; cases h2; exact hk hxk
+    cases h3 : (freeLeafS s r).get z with
+    | none =>
+      rw [hg] at h1; simp only [hzx, if_false, h3, Option.map_none] at h1; cases h1
+    | some yb1 =>
+      obtain ⟨yb', h4, h5, -⟩ := hform z yb1 hzx h3
+      rw [h1] at h4; cases h4
+      rw [h5]; exact k1.refPar z yb1 zb h3 h2 hk
+  · intro y yb yb' hy h1 h2
+    have hyx : y ≠ x := by intro e; subst e; exact hux hy
+    obtain ⟨yb1, g1, -, -, g4, -⟩ := k1.keep y yb hy h1
+    obtain ⟨ka, app1, e1, hk1⟩ := k1.order y yb yb1 hy h1 g1
+    obtain ⟨yb'', h3, -, -, h4, -⟩ := hform y yb1 hyx g1
+    rw [h2] at h3; cases h3
+    obtain ⟨kb, app2, e2, hk2⟩ := order_move (U := U) yb1.children x (decide (rb.parent = some y))
+      (w1.childNodup y yb1 g1) hux
+    exact order_comp e1 hk1 (by rw [h4]; simpa using e2) hk2
 
 /-- a field update that leaves parent, pending, kind and children alone -/
 theorem keeps_modify (U : Nat → Prop) (s : State) (i : Nat) (f : Obj → Obj)
     (hf : ∀ x : Obj, (f x).parent = x.parent ∧ (f x).pending = x.pending ∧ (f x).kind = x.kind ∧
-      (f x).children = x.children) : Keeps U s (s.modify i f) := by
-  refine ⟨?_, ?_⟩
+      (f x).children = x.children)
+    (hd : U i → ∀ x : Obj, (f x).dtor = x.dtor ∧ (f x).refs = x.refs) : Keeps U s (s.modify i f) := by
+  refine ⟨?_, ?_, ?_, ?_, ?_⟩
+  rotate_right
+  · intro y yb yb' hy h1 h2
+    rw [get_modify_some] at h2
+    rcases h2 with ⟨-, h2⟩ | ⟨e, o0, h2, rfl⟩
+    · rw [h1] at h2; cases h2; exact ⟨rfl, id⟩
+    · rw [h1] at h2; cases h2
+      subst e
+      exact ⟨(hd hy yb).1, fun h => by rw [(hd hy yb).2]; exact h⟩
   · intro z zb' hz
     rw [get_modify_some] at hz
     rcases hz with ⟨-, hz⟩ | ⟨-, o0, hz, rfl⟩
@@ -252,6 +436,16 @@ theorem keeps_modify (U : Nat → Prop) (s : State) (i : Nat) (f : Obj → Obj)
       refine ⟨f yb, by simp [hg], (hf yb).1, (hf yb).2.1, fun z hz _ => by rw [(hf yb).2.2.2]; exact hz,
         fun _ _ => (hf yb).2.2.2 ▸ List.Sublist.refl _⟩
     · exact ⟨yb, by simp [e, hg], rfl, rfl, fun z hz _ => hz, fun _ _ => List.Sublist.refl _⟩
+  · intro z zb' zb h1 h2 _
+    rw [get_modify_some] at h1
+    rcases h1 with ⟨-, h1⟩ | ⟨-, o0, h1, rfl⟩
+    · rw [h1] at h2; cases h2; rfl
+    · rw [h1] at h2; cases h2; exact (hf zb).1
+  · intro y yb yb' _ h1 h2
+    rw [get_modify_some] at h2
+    rcases h2 with ⟨-, h2⟩ | ⟨-, o0, h2, rfl⟩
+    · rw [h1] at h2; cases h2; exact ⟨fun _ => true, [], by simp, fun _ _ _ => rfl⟩
+    · rw [h1] at h2; cases h2; exact ⟨fun _ => true, [], by simp [(hf yb).2.2.2], fun _ _ _ => rfl⟩
 
 /-! ## the part of the heap a free does not reach -/
 
